@@ -10,17 +10,23 @@ from .. import gen, project
 from ..core import driver
 
 NAMES = gen.CHROMNAMES
+UNSORTED = ["c2", "c10", "c1", "c3", "c0"]      # names whose lexical order is not the order of the table
 UNKNOWN = "zz"
+_VEC = {"names": NAMES}                         # per case: the name vector in use
+
+
+def use_names(case):
+    _VEC["names"] = UNSORTED if case.get("names") == "unsorted" else NAMES
 
 
 def cname(c):
-    return UNKNOWN if c < 0 else NAMES[c]
+    return UNKNOWN if c < 0 else _VEC["names"][c]
 
 
 def _bins_arg(d, table):
     """BINS argument of the CLI: a bins file (any table)."""
     p = os.path.join(d, "bins.bed")
-    gen.bins_frame(table).to_csv(p, sep="\t", header=False, index=False)
+    gen.bins_frame(table, _VEC["names"]).to_csv(p, sep="\t", header=False, index=False)
     return p
 
 
@@ -47,6 +53,7 @@ def _cli(args):
 @driver("ig.records")
 def ig_records(case, ctx):
     """Contact records (pairs) through the Python API or `cooler cload pairs`."""
+    use_names(case)
     import cooler
     import pandas as pd
     from cooler.create import aggregate_records, sanitize_records
@@ -55,8 +62,9 @@ def ig_records(case, ctx):
     out = os.path.join(d, "out.cool")
     symm = tril != "none"
     if case["via"] == "api":
-        bins = gen.bins_frame(table)
-        san = sanitize_records(bins, schema="pairs", decode_chroms=True, is_one_based=case["one_based"],
+        bins = gen.bins_frame(table, _VEC["names"])
+        enc = case.get("chrom_ids") == "integer"      # chromosome columns already hold the integer IDs (unknown: -1)
+        san = sanitize_records(bins, schema="pairs", decode_chroms=not enc, is_one_based=case["one_based"],
                                tril_action=None if tril == "none" else tril, sort=True, validate=True)
         agg = aggregate_records(count=True, sort=False)
 
@@ -65,6 +73,16 @@ def ig_records(case, ctx):
             for k, ch in enumerate(_chunks(recs, case["chunk"])):
                 f = pd.DataFrame({"chrom1": [cname(r[0]) for r in ch], "pos1": np.array([r[1] for r in ch], dtype=pdt),
                                   "chrom2": [cname(r[2]) for r in ch], "pos2": np.array([r[3] for r in ch], dtype=pdt)})
+                if enc:
+                    f["chrom1"] = np.array([r[0] for r in ch], dtype=np.int64)
+                    f["chrom2"] = np.array([r[2] for r in ch], dtype=np.int64)
+                elif case.get("chrom_cat") == "lexical":
+                    # chromosome columns as UNORDERED categoricals over the table's chromosomes in lexical order
+                    import pandas as _pd
+                    nch = 1 + max(t[0] for t in table)
+                    cats = sorted(_VEC["names"][:nch])
+                    f["chrom1"] = _pd.Categorical(f["chrom1"], categories=cats)
+                    f["chrom2"] = _pd.Categorical(f["chrom2"], categories=cats)
                 if case.get("labels") == "offset":          # row labels as a text reader leaves them on the k-th chunk of a file
                     f.index = f.index + k * case["chunk"] + 5
                 elif case.get("labels") == "perm":
@@ -104,6 +122,7 @@ def ig_records(case, ctx):
 @driver("ig.bg2")
 def ig_bg2(case, ctx):
     """Pre-binned bedGraph-2D records <<c1, start1, c2, start2, v>> through the API or `cooler load -f bg2`."""
+    use_names(case)
     import cooler
     import pandas as pd
     from cooler.create import sanitize_records
@@ -112,7 +131,7 @@ def ig_bg2(case, ctx):
     out = os.path.join(d, "out.cool")
     symm = tril != "none"
     if case["via"] == "api":
-        bins = gen.bins_frame(table)
+        bins = gen.bins_frame(table, _VEC["names"])
         san = sanitize_records(bins, schema="bg2", is_one_based=case["one_based"],
                                tril_action=None if tril == "none" else tril, sort=True)
 
@@ -151,6 +170,7 @@ def ig_bg2(case, ctx):
 
 @driver("ig.coo")
 def ig_coo(case, ctx):
+    use_names(case)
     import cooler
     import pandas as pd
     from cooler.create import sanitize_pixels
@@ -159,7 +179,7 @@ def ig_coo(case, ctx):
     out = os.path.join(d, "out.cool")
     symm = tril != "none"
     if case["via"] == "api":
-        bins = gen.bins_frame(table)
+        bins = gen.bins_frame(table, _VEC["names"])
         san = sanitize_pixels(bins, is_one_based=case["one_based"], tril_action=None if tril == "none" else tril, sort=True)
 
         def frames():
@@ -193,6 +213,7 @@ def ig_coo(case, ctx):
 @driver("ig.tabix")
 def ig_tabix(case, ctx):
     """`cooler cload tabix` on a bgzip-compressed, tabix-indexed, sorted upper-triangle pairs file (1-based)."""
+    use_names(case)
     import pysam
     d = ctx.subdir()
     table, recs = case["table"], case["recs"]
